@@ -10,7 +10,8 @@ git -C /repo worktree add --detach $WT HEAD >/dev/null 2>&1 || exit 2
 trap 'git -C /repo worktree remove --force '$WT' 2>/dev/null; rm -rf '$L EXIT
 mkdir -p $HM $VD/evidence $VD/replays
 rsync -a --exclude target /verif/harness/ $HM/
-rsync -a /verif/replays/ $VD/replays/
+# NO_REGRESS=1: leave out the saved minimal cases, so that only the generated search can report
+[ -n "${NO_REGRESS:-}" ] || rsync -a /verif/replays/ $VD/replays/
 sed -i "s#path = \"/repo\"#path = \"$WT\"#" $HM/Cargo.toml
 cp /verif/KNOWN_FINDINGS.txt $VD/
 ( cd $WT && git apply "$P" ) || { echo "patch does not apply"; exit 2; }
@@ -20,5 +21,7 @@ if [ $r -ne 1 ] && { [ $ID = C06 ] || [ $ID = C07 ]; }; then
   VERIF_DIR=$VD timeout 900 $HM/target/release/verif check $ID $TIER 2>&1 | grep -E "VIOLATION" | head -3; r2=${PIPESTATUS[0]}
   [ $r2 -eq 1 ] && r=1
 fi
+# KEEP_REPLAYS=<dir>: keep the (shrunk) failing cases this run wrote
+[ -n "${KEEP_REPLAYS:-}" ] && mkdir -p "$KEEP_REPLAYS" && cp $VD/replays/$ID-*.json "$KEEP_REPLAYS"/ 2>/dev/null
 echo "exit=$r"
 exit $r
